@@ -208,3 +208,83 @@ def model_line(fn, running, hopping, op, queue, sched):
         ints += [a, b]
     ints += [len(sched)] + list(sched)
     return "w_c03_race " + " ".join(map(str, ints))
+
+
+# ---------------------------------------------------------------------------------------------------------------------
+# C18: one FAKE_DROP / RFMUTE command on the socket thread racing one tick in which the recipient decides about a burst.
+# Granularity: a thread can be preempted where it calls out into the logging subsystem (I/O: the interpreter lock is
+# released there) and at lock operations - not between the bytecodes of one statement.
+
+class _LogProxy:
+    def __init__(self, ctl, real):
+        self._ctl, self._real = ctl, real
+
+    def __getattr__(self, k):
+        v = getattr(self._real, k)
+        if k in ("debug", "info", "warning", "error", "critical", "log"):
+            def call(*a, **kw):
+                self._ctl.point("log." + k)
+                return v(*a, **kw)
+            return call
+        return v
+
+
+def run_drop_race(fn, ver_b, pending, cmd_text, sched):
+    """recipient B has `pending` = (amount, period) drops configured and header version ver_b; sender A has one burst due at fn;
+    the clock thread runs A.clck_tick, the socket thread handles cmd_text on B's control socket.
+    -> (final amount, final period, muted, datagrams B's L1 got [(is_nope, fn)], reply, trace, thread states)"""
+    common.import_toolkit()
+    fakesock.install()
+    import fake_trx
+    import burst_fwd
+    import data_msg
+    ctl = Ctl()
+    real_log = fake_trx.log
+    fake_trx.log = _LogProxy(ctl, real_log)
+    saved_disable = logging.root.manager.disable
+    logging.disable(logging.CRITICAL)          # the records themselves are of no interest (the calls are the yield points)
+    try:
+        a = fake_trx.FakeTRX("0.0.0.0", "127.0.0.1", 5700, name="A")
+        b = fake_trx.FakeTRX("0.0.0.0", "127.0.0.1", 6700, name="B")
+        src = ("127.0.0.9", 1)
+
+        def cmd(t, s):
+            t.ctrl_if.sock.inbox.append((s.encode() + b"\0", src))
+            t.ctrl_if.handle_rx()
+            out = [bytes(d[0]) for d in t.ctrl_if.sock.sent]
+            t.ctrl_if.sock.sent.clear()
+            return out
+        cmd(a, "CMD RXTUNE %d" % F2); cmd(a, "CMD TXTUNE %d" % F1)
+        cmd(b, "CMD RXTUNE %d" % F1); cmd(b, "CMD TXTUNE %d" % F2)
+        cmd(b, "CMD SETFORMAT %d" % ver_b)
+        cmd(a, "CMD POWERON"); cmd(b, "CMD POWERON")
+        cmd(b, "CMD FAKE_DROP %d %d" % pending)
+        m = data_msg.TxMsg(fn=fn, tn=3, burst=bytearray(148))
+        m.pwr = 0
+        a._tx_queue.append(m)
+        fwd = burst_fwd.BurstForwarder([a, b])
+        reply = []
+
+        def tick():
+            a.clck_tick(fwd, fn)
+
+        def sock():
+            reply.extend(cmd(b, cmd_text))
+        ctl.spawn("tick", tick)
+        ctl.spawn("sock", sock)
+        for bit in sched:
+            who, other = ("tick", "sock") if bit else ("sock", "tick")
+            if not ctl.step(who):
+                if not ctl.step(other):
+                    break
+        for who in ("tick", "sock"):
+            while ctl.step(who):
+                pass
+        got = []
+        for d in b.data_if.sock.sent:
+            dg = bytes(d[0])
+            got.append((1 if (dg[0] >> 4) >= 1 and len(dg) > 8 and (dg[8] & 0x80) else 0, int.from_bytes(dg[1:5], "big")))
+        return (b.burst_drop_amount, b.burst_drop_period, bool(b.rf_muted), got, reply, list(ctl.trace), (ctl.state["tick"], ctl.state["sock"]))
+    finally:
+        fake_trx.log = real_log
+        logging.disable(saved_disable)
